@@ -37,7 +37,19 @@ def main():
         # the (changed) code is outside the executor's subset: a bounded native check of the same contract stands in,
         # labelled bounded; it can only confirm a violation with a concrete input or report that it found none
         print(f'ENGINE-LIMIT property={prop} the executor cannot process the code: {e}')
-        if hasattr(mod, 'fallback'):
+        code = None
+        if sess.obligations:
+            # obligations collected before the limit was reached are still decided: a refuted one is a violation in its own right
+            sess.notes.append(f'PARTIAL RUN: the executor stopped at an engine limit ({e}); only the obligations generated before it were decided')
+            sess.level = 'other'
+            sess.explanation = ('PARTIAL: engine limit reached (' + str(e)[:200] + '); obligations generated before it were decided, the rest of the '
+                                'property was NOT examined deductively on this run. ' + (sess.explanation or ''))
+            pre = sess.finish()
+            if pre == 1:
+                code = 1
+        if code is not None:
+            pass
+        elif hasattr(mod, 'fallback'):
             code = sess.finish_fallback(str(e), mod.fallback)
         else:
             traceback.print_exc()
